@@ -367,7 +367,13 @@ class DescriptorTransaction(_TransactionBase):
                         'transaction_manager: new descriptor Handle={}, DescriptorVersion={}',
                         new_descriptor.Handle, new_descriptor.DescriptorVersion)
                     proc.descr_created.append(new_descriptor.mk_copy())
+                    # the mdib gets a private copy: the application still holds the object it handed in and may use it
+                    # again (e.g. as a template for the next descriptor)
+                    new_descriptor = new_descriptor.mk_copy()
                     self._mdib.descriptions.add_object_no_lock(new_descriptor)
+                    for ctx_item in self.context_state_updates.values():
+                        if ctx_item.new is not None and ctx_item.new.DescriptorHandle == new_descriptor.Handle:
+                            ctx_item.new.descriptor_container = new_descriptor
                     # increment DescriptorVersion if a child descriptor is added or deleted.
                     if new_descriptor.parent_handle is not None \
                             and new_descriptor.parent_handle not in to_be_created_handles:
